@@ -92,6 +92,37 @@ func genPkgInput(r *Rand, w *Workload, pkg string, format string, opts GenOpts) 
 	}
 }
 
+// AddCaseTwin adds, for one JSON Schema / OpenAPI input, a second input reading
+// the same document under a package name that differs in letter case only: the
+// same object names then exist in two packages that a case-insensitive match
+// would confuse.
+func AddCaseTwin(r *Rand, w *Workload) bool {
+	var cands []int
+	for i, in := range w.Inputs {
+		if (in.Kind == "jsonschema" || in.Kind == "openapi") && in.Package != "" && in.URL == "" && len(in.AllowedObjects) == 0 {
+			cands = append(cands, i)
+		}
+	}
+	if len(cands) == 0 {
+		return false
+	}
+	in := w.Inputs[Pick(r, cands)]
+	twin := in
+	twin.Package = strings.ToUpper(in.Package[:1]) + in.Package[1:]
+	if twin.Package == in.Package {
+		twin.Package = strings.ToLower(in.Package)
+	}
+	for _, o := range w.Inputs {
+		if o.Package == twin.Package {
+			return false
+		}
+	}
+	twin.Transformations = nil
+	w.Inputs = append(w.Inputs, twin)
+	w.Name += " +case-twin:" + twin.Package
+	return true
+}
+
 var genPkgNames = []string{"pkga", "pkgb", "pkgc", "dashboard", "common", "panelz"}
 
 // GenWorkload draws a pipeline: 1-3 inputs (corpus or generated, distinct
@@ -258,6 +289,40 @@ func GenListOfUnionsWorkload(r *Rand) *Workload {
 
 // array_to_append keeps the option's name; only its argument is singularised.
 func tools_singular(s string) string { return s }
+
+// GenCueImportsWorkload: a CUE entry point that imports two libraries whose import
+// paths are a prefix of one another, embeds definitions of both (so that nodes
+// located in the libraries' files are walked) and refers to them.
+func GenCueImportsWorkload(r *Rand) *Workload {
+	w := &Workload{Files: map[string]string{}, Types: true, Builders: r.Bool()}
+	w.Files["in/libs/common/common.cue"] = "package common\n\n#Item: {\n\tname: string\n}\n\n#Shared: {\n\titems: [...#Item]\n\ttags?: [...string]\n\tkind: \"shared\"\n}\n"
+	w.Files["in/libs/commonext/commonext.cue"] = "package commonext\n\n#Entry: {\n\tid: int64\n}\n\n#Extra: {\n\tentries: [...#Entry]\n\tfirst?: #Entry\n}\n"
+	alias := Pick(r, []string{"ext ", ""})
+	sel := "ext"
+	if alias == "" {
+		sel = "commonext"
+	}
+	var b strings.Builder
+	b.WriteString("package main\n\nimport (\n\t\"example.com/libs/common\"\n\t" + alias + "\"example.com/libs/commonext\"\n)\n\n")
+	defs := []string{
+		"#Thing: {\n\tcommon.#Shared\n\textra: string\n}\n\n",
+		"#Other: {\n\t" + sel + ".#Extra\n\tmore?: bool\n}\n\n",
+		"#Uses: {\n\ts: common.#Shared\n\te?: " + sel + ".#Extra\n\titems: [...common.#Item]\n\tentries: [..." + sel + ".#Entry]\n}\n\n",
+	}
+	for _, d := range Shuffled(r, defs) {
+		b.WriteString(d)
+	}
+	w.Files["in/main/main.cue"] = b.String()
+	imports := Shuffled(r, []string{"in/libs/common:example.com/libs/common", "in/libs/commonext:example.com/libs/commonext"})
+	w.Inputs = Shuffled(r, []InputSpec{
+		{Kind: "cue", Path: "in/main", Package: "main", CueImports: imports},
+		{Kind: "cue", Path: "in/libs/common", Package: "common"},
+		{Kind: "cue", Path: "in/libs/commonext", Package: "commonext"},
+	})
+	w.Languages = GenLanguages(r, 1, 3)
+	w.Name = "cue-imports -> " + strings.Join(w.LangNames(), ",")
+	return w
+}
 
 // GenMergeWorkload: a struct whose field refers to another struct, and a
 // merge_into veneer whose rename_options interact (a chain, and keys differing
